@@ -249,13 +249,30 @@ func vfsArgs(name string, mt reflect.Type, d domains) (tuples [][]argv, ok bool)
 	case "Chdir", "Create", "EvalSymlinks", "Lstat", "Stat", "ReadDir", "ReadFile", "Readlink", "Remove", "RemoveAll", "Open", "Sub":
 		return each(d.paths), true
 	case "Chmod":
-		return each(d.paths, md(0o600)), true
+		t := each(d.paths, md(0o600))
+
+		// the mode the node has (noOps)
+		for _, x := range d.paths {
+			if h, ok := held[x]; ok && h.mode != 0o600 {
+				t = append(t, []argv{p(x), md(h.mode)})
+			}
+		}
+
+		if th {
+			t = append(t, each(d.paths, md(0o644))...)
+			t = append(t, each(d.paths, md(0o755))...)
+		}
+
+		return t, true
 	case "Mkdir", "MkdirAll":
 		return each(d.paths, md(0o755)), true
 	case "Chown", "Lchown":
-		t := each(d.paths, in(0), in(0))
+		// 0:0 is the owner every node has; -1 leaves an id as it is (noOps)
+		t := append(each(d.paths, in(0), in(0)), each(d.paths, in(-1), in(-1))...)
 		if th {
 			t = append(t, each(d.paths, in(1001), in(1001))...)
+			t = append(t, each(d.paths, in(-1), in(1001))...)
+			t = append(t, each(d.paths, in(0), in(-1))...)
 		}
 
 		return t, true
@@ -318,14 +335,29 @@ func vfsArgs(name string, mt reflect.Type, d domains) (tuples [][]argv, ok bool)
 		return t, true
 	case "Truncate":
 		t := each(d.paths, i64(0))
+
+		// the size the file has (noOps)
+		for _, x := range d.paths {
+			if h, ok := held[x]; ok && h.size > 0 {
+				t = append(t, []argv{p(x), i64(h.size)})
+			}
+		}
+
 		if th {
 			t = append(t, each(d.paths, i64(2))...)
+			t = append(t, each(d.paths, i64(4))...)
 			t = append(t, each(d.paths, i64(-1))...)
 		}
 
 		return t, true
 	case "WriteFile":
-		return each(d.paths, argv{K: "data", S: "XY"}, md(0o644)), true
+		t := each(d.paths, argv{K: "data", S: "XY"}, md(0o644))
+		if th {
+			t = append(t, each(d.paths, argv{K: "data", S: ""}, md(0o644))...)
+			t = append(t, each(d.paths, argv{K: "data", S: "data"}, md(0o644))...) // what /d/f holds
+		}
+
+		return t, true
 	case "WalkDir":
 		roots := []string{"/d", "/", "/nope", "/d/f", ""}
 		if d.subFS {
@@ -367,6 +399,38 @@ func vfsArgs(name string, mt reflect.Type, d domains) (tuples [][]argv, ok bool)
 	}
 
 	return genericArgs(mt, d)
+}
+
+// noOps: the values with which a mutating call is documented (or bound) to
+// change nothing.
+//
+// Lesson: nearly every mutator has an argument value that means "leave it as
+// it is" - Chown with -1 for either id or for both, Chtimes with the zero
+// time, Truncate to the size the file has, Chmod to the mode it has, Chown to
+// the owner it has, Write / WriteAt / WriteString of no bytes, Rename of a
+// name onto itself or onto another link of the same file, SetUMask of the mask
+// in force, MkdirAll of a directory that exists, RemoveAll of a name that does
+// not - and code that refuses mutations is tempted to let exactly these
+// through ("nothing is written anyway"), forwarding them to a base that may
+// read the value differently (an OrefaFS stores -1 as the owner). A read-only
+// file system refuses them like any other mutation, with an error of the
+// permission class, and the base must not change. The argument domain of every
+// mutating method therefore holds, next to a value that would change
+// something, the value(s) that would not: the setup of the tree is fixed, so
+// "the size / mode / owner it has" are constants of the alphabet (/d/f: 4
+// bytes, 0o644; /d/e/g: 2 bytes, 0o600; directories 0o755; every node 0:0;
+// umask 0o022). vfsArgs and fileArgs mark them with "noOps".
+
+// held: what the setup (build) gives the nodes the path operands name - size
+// (-1: a directory) and permission bits - under the spellings of the alphabet
+// (before spell): absolute, relative to the initial current directory, through
+// the symbolic links of the MemFS, and as seen from a view rooted at /d or /d/e.
+// The second volume of a Windows-typed MemFS: vol2Dir, vol2File.
+var held = map[string]struct{ size, mode int64 }{
+	"/d": {-1, 0o755}, "/d/e": {-1, 0o755}, "/d/sd": {-1, 0o755}, "/e": {-1, 0o755}, rootedDir: {-1, 0o755}, vol2Dir: {-1, 0o755},
+	"/d/f": {4, 0o644}, "/d/h": {4, 0o644}, "/d/s": {4, 0o644}, "d/f": {4, 0o644}, "/f": {4, 0o644},
+	"/d/e/g": {2, 0o600}, "/e/g": {2, 0o600}, "/g": {2, 0o600},
+	vol2File: {2, 0o644},
 }
 
 // genericArgs builds the product of small per-type domains.
@@ -463,42 +527,38 @@ func fileArgs(name string, mt reflect.Type, d domains) ([][]argv, bool) {
 
 		return [][]argv{{i64(0), in(0)}, {i64(2), in(0)}, {i64(-1), in(0)}, {i64(1), in(1)}, {i64(0), in(2)}, {i64(10), in(0)}, {i64(0), in(3)}}, true
 	case "Write":
-		if th {
-			return [][]argv{{data("XY")}, {data("")}}, true
-		}
-
-		return [][]argv{{data("XY")}}, true
+		// no bytes: nothing would be written (noOps)
+		return [][]argv{{data("XY")}, {data("")}}, true
 	case "WriteString":
-		if th {
-			return [][]argv{{st("XY")}, {st("")}}, true
-		}
-
-		return [][]argv{{st("XY")}}, true
+		return [][]argv{{st("XY")}, {st("")}}, true
 	case "WriteAt":
-		t := [][]argv{{data("XY"), i64(0)}}
+		t := [][]argv{{data("XY"), i64(0)}, {data(""), i64(0)}}
 		if th {
-			t = append(t, []argv{data("XY"), i64(-1)}, []argv{data(""), i64(10)})
+			t = append(t, []argv{data("XY"), i64(-1)}, []argv{data(""), i64(10)}, []argv{data("XY"), i64(10)})
 		}
 
 		return t, true
 	case "Truncate":
+		// 4 is the size /d/f has, 2 the size /d/e/g has (noOps)
 		if th {
-			return [][]argv{{i64(0)}, {i64(2)}, {i64(-1)}, {i64(10)}}, true
+			return [][]argv{{i64(0)}, {i64(2)}, {i64(4)}, {i64(-1)}, {i64(10)}}, true
 		}
 
-		return [][]argv{{i64(0)}, {i64(10)}}, true
+		return [][]argv{{i64(0)}, {i64(4)}, {i64(10)}}, true
 	case "Chmod":
+		// 0o644 is the mode /d/f has, 0o755 the mode the directories have (noOps)
 		if th {
-			return [][]argv{{md(0o777)}, {md(0)}}, true
+			return [][]argv{{md(0o777)}, {md(0)}, {md(0o644)}, {md(0o755)}, {md(0o600)}}, true
 		}
 
-		return [][]argv{{md(0o777)}}, true
+		return [][]argv{{md(0o777)}, {md(0o644)}}, true
 	case "Chown":
+		// -1 leaves an id as it is; 0:0 is the owner every node has (noOps)
 		if th {
-			return [][]argv{{in(0), in(0)}, {in(1001), in(1001)}, {in(-1), in(-1)}}, true
+			return [][]argv{{in(0), in(0)}, {in(1001), in(1001)}, {in(-1), in(-1)}, {in(-1), in(1001)}, {in(0), in(-1)}}, true
 		}
 
-		return [][]argv{{in(1001), in(1001)}}, true
+		return [][]argv{{in(1001), in(1001)}, {in(-1), in(-1)}, {in(0), in(0)}}, true
 	case "ReadDir", "Readdirnames":
 		if th {
 			return [][]argv{{in(-1)}, {in(0)}, {in(1)}, {in(5)}}, true
@@ -735,7 +795,8 @@ func buildOps(base, tier string) (ops []opDesc, bad []string, info map[string]an
 		d := domains{tier: tier, paths: paths, flags: flags, subFS: sub, vol2: v2}
 		d.lexical = []string{"/d/f", "d/f", "", "/d/../x/"}
 		d.old = []string{"/d/f", "/d/e", "/nope"}
-		d.new = []string{"/d/new", "/d/h", "/d/f", "/x"}
+		// (a name onto itself, onto another link of the same file: noOps)
+		d.new = []string{"/d/new", "/d/h", "/d/f", "/d/e", "/x"}
 		d.finfo = []string{"/d/f", "/d/h", "/d/e/g"}
 
 		if sub {
